@@ -242,6 +242,14 @@ class ExcVal(object):
     return "<Exc %s%r @%s>" % (self.cls.__name__, self.args, self.where)
 
 
+class GenCont(object):
+  """suspended continuation of an interpreted generator: fn(st, sent_value, thrown_exc_or_None)"""
+  __slots__ = ("fn",)
+
+  def __init__(self, fn):
+    self.fn = fn
+
+
 class SuperProxy(object):
   __slots__ = ("cls", "obj")
 
